@@ -300,6 +300,22 @@ def defaults_universe():
     defs["DTop"]["fields"][0]["def"] = [0, 0, 0, 5]
     defs["DTop"]["fields"][1]["def"] = list(b"top")
     defs["DTop"]["fields"][3]["def"] = [64, 9, 33, 251, 84, 68, 45, 24]
+    # a writer that sends other wire types at the ids of DTop's optional pointer fields: they stay nil
+    defs["WDTopX"] = U.struct([U.field(1, "optional", U.T("i32", True)), U.field(3, "default", U.T("string")), U.field(5, "default", U.T("i32")),
+                               U.field(4, "optional", U.T("double", True))])
+    # declared defaults only on default / required fields; the optional fields are all pointers
+    dr = U.struct([U.field(1, "default", U.T("i32")), U.field(2, "default", U.T("string")), U.field(3, "required", U.T("i64")),
+                   U.field(4, "optional", U.T("i16", True)), U.field(5, "optional", U.ST("Leaf", True))], init=True)
+    dr["fields"][0]["def"] = [0, 0, 0, 42]
+    dr["fields"][1]["def"] = list(b"dd")
+    dr["fields"][2]["def"] = [0] * 7 + [3]
+    defs["DefReq"] = dr
+    defs["WDefReq"] = U.struct([U.field(1, "optional", U.T("i32", True)), U.field(2, "optional", U.T("string", True)), U.field(3, "default", U.T("i64")),
+                                U.field(4, "optional", U.T("i16", True))])
+    defs["DRN"] = U.struct([U.field(1, "default", U.ST("DefReq", True)), U.field(2, "default", U.L(U.ST("DefReq", True))),
+                            U.field(3, "default", U.M(U.T("string"), U.ST("DefReq", False))), U.field(4, "default", U.ST("DefReq", False))])
+    defs["WDRN"] = U.struct([U.field(1, "default", U.ST("WDefReq", True)), U.field(2, "default", U.L(U.ST("WDefReq", True))),
+                             U.field(3, "default", U.M(U.T("string"), U.ST("WDefReq", False))), U.field(4, "default", U.ST("WDefReq", False))])
     return U.with_defaults(defs)
 
 
@@ -348,6 +364,24 @@ def defaults_batches(prop, tier, seed, work, res, quick, rng):
         cid = "C10-dec-nest-%d" % n
         cases.append({"cid": cid, "w": "WDNest", "val": wn, "ord": ORDS[n % 4], "trail": [], "mut": "none"})
         plans[cid] = ("DNest", n)
+    # other wire types at the ids of optional pointer fields
+    for a in (0, 1):
+        n += 1
+        cid = "C10-dec-ptrmismatch-%d" % n
+        cases.append({"cid": cid, "w": "WDTopX", "val": {"f": {"1": {"p": 1, "v": [0, 0, 0, 8]} if a else {"p": 0}, "3": list(b"str"), "5": [0, 0, 0, 9],
+                                                              "4": {"p": 1, "v": [0] * 8}}, "unk": []}, "ord": ORDS[n % 4], "trail": [], "mut": "none"})
+        plans[cid] = ("DTop", n)
+    # nested structs whose declared defaults sit on default / required fields
+    for a in (0, 1):
+        for b in (0, 1):
+            wv = {"f": {"1": {"p": 1, "v": [0, 0, 0, 7]} if a else {"p": 0}, "2": {"p": 1, "v": list(b"x")} if b else {"p": 0}, "3": [0] * 7 + [1], "4": {"p": 0}}, "unk": []}
+            wfull = {"f": {"1": {"p": 1, "v": [0, 0, 0, 9]}, "2": {"p": 1, "v": list(b"full")}, "3": [0] * 7 + [2], "4": {"p": 1, "v": [0, 5]}}, "unk": []}
+            n += 1
+            cid = "C10-dec-defreq-%d" % n
+            cases.append({"cid": cid, "w": "WDRN", "val": {"f": {"1": {"p": 1, "v": wv}, "2": {"nil": False, "items": [{"p": 1, "v": wfull}, {"p": 1, "v": wv}]},
+                                                               "3": {"nil": False, "ents": [[list(b"a"), wfull], [list(b"b"), wv]]}, "4": wv}, "unk": []},
+                          "ord": ORDS[n % 4], "trail": [], "mut": "none"})
+            plans[cid] = ("DRN", n)
     msgs, st = vlib.gen_messages(work, defs_path, cases)
     res.tlc_states += st.get("distinct", 0)
     res.tlc_transitions += st.get("generated", 0)
